@@ -2,6 +2,7 @@ package core
 
 import (
 	"fmt"
+	"go/constant"
 	"go/token"
 	"go/types"
 	"sort"
@@ -38,8 +39,24 @@ func (p *Program) CalleesOf(call ssa.CallInstruction) []*ssa.Function {
 	return out
 }
 
-// CallsTo lists call instructions (call, defer, go) in fn (not its closures) that may call callee.
+// CallsTo lists call instructions (call, defer, go) in fn (not its closures)
+// that may call callee; calls located in new helpers (IsNew) that fn calls are
+// included, since such a helper is part of fn as far as the rules are concerned.
 func (p *Program) CallsTo(fn *ssa.Function, callee *ssa.Function) []ssa.CallInstruction {
+	out := p.callsToLocal(fn, callee)
+	if p.IsNew(callee) {
+		return out
+	}
+	for _, g := range p.Scope(fn) {
+		if g == fn || g.Parent() != nil && Root(g) == Root(fn) {
+			continue
+		}
+		out = append(out, p.callsToLocal(g, callee)...)
+	}
+	return out
+}
+
+func (p *Program) callsToLocal(fn *ssa.Function, callee *ssa.Function) []ssa.CallInstruction {
 	var out []ssa.CallInstruction
 	for _, b := range fn.Blocks {
 		for _, in := range b.Instrs {
@@ -321,6 +338,40 @@ func (fi *FuncInfo) MustCrossEdges(target ssa.Instruction, pass func(Atom) bool,
 // MustCrossOrPass: every path to target crosses a passing edge or executes an
 // instruction satisfying instrPass (which then acts like an assert-style gate).
 func (fi *FuncInfo) MustCrossOrPass(target ssa.Instruction, pass func(Atom) bool, edgeOK func(Edge) bool, instrPass func(ssa.Instruction) bool) GateResult {
+	return fi.mustCrossOrPassDeep(target, pass, edgeOK, instrPass, 0)
+}
+
+// mustCrossOrPassDeep adds the treatment of helpers no rule knows by name
+// (Program.IsNew): a target inside one is looked at in its own function, and
+// when the gate is not found there, on the paths to every call site of that
+// helper (the gate may have stayed in the function the helper was extracted
+// from). Edge filters (stability) are not carried across the call.
+func (fi *FuncInfo) mustCrossOrPassDeep(target ssa.Instruction, pass func(Atom) bool, edgeOK func(Edge) bool, instrPass func(ssa.Instruction) bool, depth int) GateResult {
+	tfn := target.Parent()
+	if tfn != fi.Fn {
+		if !fi.P.IsNew(tfn) && depth == 0 {
+			return GateResult{OK: false, Witness: "target not in function"}
+		}
+		return fi.P.Info(tfn).mustCrossOrPassDeep(target, pass, edgeOK, instrPass, depth)
+	}
+	r := fi.mustCrossOrPassLocal(target, pass, edgeOK, instrPass)
+	if r.OK || depth > 3 || !fi.P.IsNew(tfn) || tfn.Parent() != nil {
+		return r
+	}
+	callers := fi.P.Callers(tfn)
+	if len(callers) == 0 {
+		return r
+	}
+	for _, s := range callers {
+		cr := fi.P.Info(s.Fn).mustCrossOrPassDeep(s.Instr, pass, nil, instrPass, depth+1)
+		if !cr.OK {
+			return GateResult{OK: false, Witness: r.Witness + " ; and on the way to its call at " + fi.P.PosStr(s.Instr.Pos(), s.Fn) + ": " + cr.Witness}
+		}
+	}
+	return GateResult{OK: true}
+}
+
+func (fi *FuncInfo) mustCrossOrPassLocal(target ssa.Instruction, pass func(Atom) bool, edgeOK func(Edge) bool, instrPass func(ssa.Instruction) bool) GateResult {
 	fn := fi.Fn
 	if target.Parent() != fn {
 		return GateResult{OK: false, Witness: "target not in function"}
@@ -328,7 +379,7 @@ func (fi *FuncInfo) MustCrossOrPass(target ssa.Instruction, pass func(Atom) bool
 	gates := 0
 	isGate := map[Edge]bool{}
 	for _, ea := range fi.AllEdgeAtoms() {
-		if pass(ea.A) {
+		if pass(ea.A) || fi.helperEdgePasses(ea.E, pass) {
 			// an If whose two successors are the same block is not a gate
 			if ea.E.From.Succs[0] == ea.E.From.Succs[1] {
 				continue
@@ -361,22 +412,23 @@ func (fi *FuncInfo) MustCrossOrPass(target ssa.Instruction, pass func(Atom) bool
 			}
 		}
 	}
-	// BFS from entry avoiding gate edges
+	// BFS from entry avoiding gate edges (threaded view: see thread.go)
 	type st struct {
-		b    *ssa.BasicBlock
+		n    TNode
 		prev *st
 		via  string
 	}
-	seen := map[*ssa.BasicBlock]bool{}
-	q := []*st{{b: fn.Blocks[0]}}
-	seen[fn.Blocks[0]] = true
+	seen := map[TNode]bool{}
+	q := []*st{{n: TEntry(fn.Blocks[0])}}
+	seen[q[0].n] = true
 	tb := target.Block()
 	ti := instrIndex(target)
 	for len(q) > 0 {
 		s := q[0]
 		q = q[1:]
-		ai, hasAssert := assertAt[s.b]
-		if s.b == tb && !(hasAssert && ai < ti) {
+		sb := s.n.B
+		ai, hasAssert := assertAt[sb]
+		if sb == tb && !(hasAssert && ai < ti) {
 			var parts []string
 			for x := s; x != nil; x = x.prev {
 				if x.via != "" {
@@ -391,20 +443,26 @@ func (fi *FuncInfo) MustCrossOrPass(target ssa.Instruction, pass func(Atom) bool
 		if hasAssert {
 			continue
 		}
-		for i, succ := range s.b.Succs {
-			e := Edge{s.b, i}
-			if isGate[e] || !FeasibleSucc(s.b, i) {
+		for i := range sb.Succs {
+			e := Edge{sb, i}
+			if isGate[e] {
 				continue
 			}
-			if seen[succ] {
+			if s.n.From >= 0 && sb.Succs[0] != sb.Succs[len(sb.Succs)-1] {
+				if a, ok := fi.EdgeAtomFrom(e, s.n.From); ok && pass(a) && (edgeOK == nil || edgeOK(e)) {
+					continue
+				}
+			}
+			next, feasible := fi.P.TStep(s.n, i)
+			if !feasible || seen[next] {
 				continue
 			}
-			seen[succ] = true
+			seen[next] = true
 			via := ""
-			if a, ok := fi.EdgeAtom(e); ok {
+			if a, ok := fi.EdgeAtomFrom(e, s.n.From); ok {
 				via = "[" + a.String() + "]"
 			}
-			q = append(q, &st{b: succ, prev: s, via: via})
+			q = append(q, &st{n: next, prev: s, via: via})
 		}
 	}
 	return GateResult{OK: true, Gates: gates}
@@ -805,11 +863,11 @@ func (fi *FuncInfo) AlwaysFollowedByE(from ssa.Instruction, hit func(ssa.Instruc
 // AlwaysFollowedFrom starts the obligation at instruction index idx of block b0.
 func (fi *FuncInfo) AlwaysFollowedFrom(b0 *ssa.BasicBlock, idx int, hit func(ssa.Instruction) bool, edgeHit func(Atom) bool) FollowResult {
 	type pos struct {
-		b *ssa.BasicBlock
+		n TNode
 		i int
 	}
-	start := pos{b0, idx}
-	seen := map[*ssa.BasicBlock]bool{}
+	start := pos{TEntry(b0), idx}
+	seen := map[TNode]bool{}
 	type item struct {
 		p    pos
 		path []string
@@ -818,7 +876,7 @@ func (fi *FuncInfo) AlwaysFollowedFrom(b0 *ssa.BasicBlock, idx int, hit func(ssa
 	for len(stack) > 0 {
 		it := stack[len(stack)-1]
 		stack = stack[:len(stack)-1]
-		b := it.p.b
+		b := it.p.n.B
 		done := false
 		for i := it.p.i; i < len(b.Instrs); i++ {
 			in := b.Instrs[i]
@@ -839,23 +897,24 @@ func (fi *FuncInfo) AlwaysFollowedFrom(b0 *ssa.BasicBlock, idx int, hit func(ssa
 		if done {
 			continue
 		}
-		for si, s := range b.Succs {
-			if seen[s] || !FeasibleSucc(b, si) {
+		for si := range b.Succs {
+			next, feasible := fi.P.TStep(it.p.n, si)
+			if !feasible || seen[next] {
 				continue
 			}
 			via := ""
-			if a, ok := fi.EdgeAtom(Edge{b, si}); ok {
+			if a, ok := fi.EdgeAtomFrom(Edge{b, si}, it.p.n.From); ok {
 				via = "[" + a.String() + "]"
 				if edgeHit != nil && edgeHit(a) {
 					continue
 				}
 			}
-			seen[s] = true
+			seen[next] = true
 			np := append(append([]string{}, it.path...), via)
 			if via == "" {
 				np = it.path
 			}
-			stack = append(stack, item{pos{s, 0}, np})
+			stack = append(stack, item{pos{next, 0}, np})
 		}
 	}
 	return FollowResult{OK: true}
@@ -868,12 +927,13 @@ func (fi *FuncInfo) PrecededBy(target ssa.Instruction, hit func(ssa.Instruction)
 		b *ssa.BasicBlock
 	}
 	// forward search from entry; blocks containing a hit (before target if same block) stop the search
-	seen := map[*ssa.BasicBlock]bool{}
-	stack := []*ssa.BasicBlock{fi.Fn.Blocks[0]}
-	seen[fi.Fn.Blocks[0]] = true
+	seen := map[TNode]bool{}
+	stack := []TNode{TEntry(fi.Fn.Blocks[0])}
+	seen[stack[0]] = true
 	for len(stack) > 0 {
-		b := stack[len(stack)-1]
+		n := stack[len(stack)-1]
 		stack = stack[:len(stack)-1]
+		b := n.B
 		blocked := false
 		for _, in := range b.Instrs {
 			if in == target {
@@ -887,10 +947,11 @@ func (fi *FuncInfo) PrecededBy(target ssa.Instruction, hit func(ssa.Instruction)
 		if blocked {
 			continue
 		}
-		for si, s := range b.Succs {
-			if !seen[s] && FeasibleSucc(b, si) {
-				seen[s] = true
-				stack = append(stack, s)
+		for si := range b.Succs {
+			next, feasible := fi.P.TStep(n, si)
+			if feasible && !seen[next] {
+				seen[next] = true
+				stack = append(stack, next)
 			}
 		}
 	}
@@ -993,18 +1054,22 @@ func (fi *FuncInfo) LoopBodyMustCross(header *ssa.BasicBlock, pass func(Atom) bo
 // edge or executes an instruction satisfying hit.
 func (fi *FuncInfo) LoopBodyMustCrossOrPass(header *ssa.BasicBlock, pass func(Atom) bool, hit func(ssa.Instruction) bool) GateResult {
 	type st struct {
-		b    *ssa.BasicBlock
+		n    TNode
 		prev *st
 		via  string
 	}
-	body := header.Succs[0]
-	seen := map[*ssa.BasicBlock]bool{body: true}
-	q := []*st{{b: body}}
+	body, feasible := fi.P.TStep(TEntry(header), 0)
+	if !feasible {
+		return GateResult{OK: true}
+	}
+	seen := map[TNode]bool{body: true}
+	q := []*st{{n: body}}
 	gates := 0
 	for len(q) > 0 {
 		s := q[0]
 		q = q[1:]
-		if s.b == header {
+		sb := s.n.B
+		if sb == header {
 			var parts []string
 			for x := s; x != nil; x = x.prev {
 				if x.via != "" {
@@ -1015,7 +1080,7 @@ func (fi *FuncInfo) LoopBodyMustCrossOrPass(header *ssa.BasicBlock, pass func(At
 		}
 		if hit != nil {
 			blocked := false
-			for _, in := range s.b.Instrs {
+			for _, in := range sb.Instrs {
 				if hit(in) {
 					blocked = true
 				}
@@ -1024,23 +1089,24 @@ func (fi *FuncInfo) LoopBodyMustCrossOrPass(header *ssa.BasicBlock, pass func(At
 				continue
 			}
 		}
-		for i, succ := range s.b.Succs {
-			if !FeasibleSucc(s.b, i) {
+		for i := range sb.Succs {
+			next, feasible := fi.P.TStep(s.n, i)
+			if !feasible {
 				continue
 			}
 			via := ""
-			if a, ok := fi.EdgeAtom(Edge{s.b, i}); ok {
+			if a, ok := fi.EdgeAtomFrom(Edge{sb, i}, s.n.From); ok {
 				via = "[" + a.String() + "]"
-				if pass(a) && s.b.Succs[0] != s.b.Succs[1] {
+				if pass(a) && sb.Succs[0] != sb.Succs[1] {
 					gates++
 					continue
 				}
 			}
-			if seen[succ] && succ != header {
+			if seen[next] && next.B != header {
 				continue
 			}
-			seen[succ] = true
-			q = append(q, &st{b: succ, prev: s, via: via})
+			seen[next] = true
+			q = append(q, &st{n: next, prev: s, via: via})
 		}
 	}
 	return GateResult{OK: true, Gates: gates}
@@ -1060,11 +1126,11 @@ func (fi *FuncInfo) MustPassFeasible(target ssa.Instruction, instrPass func(ssa.
 		a Atom
 	}
 	type state struct {
-		b    *ssa.BasicBlock
+		b    TNode
 		pins string
 	}
 	type item struct {
-		b    *ssa.BasicBlock
+		n    TNode
 		pins []Atom
 		path []string
 	}
@@ -1113,13 +1179,14 @@ func (fi *FuncInfo) MustPassFeasible(target ssa.Instruction, instrPass func(ssa.
 		return true
 	}
 	seen := map[state]bool{}
-	stack := []item{{b: fi.Fn.Blocks[0]}}
+	stack := []item{{n: TEntry(fi.Fn.Blocks[0])}}
 	tb := target.Block()
 	steps := 0
 	for len(stack) > 0 {
 		it := stack[len(stack)-1]
 		stack = stack[:len(stack)-1]
-		st := state{it.b, key(it.pins)}
+		itb := it.n.B
+		st := state{it.n, key(it.pins)}
 		if seen[st] {
 			continue
 		}
@@ -1131,7 +1198,7 @@ func (fi *FuncInfo) MustPassFeasible(target ssa.Instruction, instrPass func(ssa.
 		pins := it.pins
 		passed := false
 		reached := false
-		for _, in := range it.b.Instrs {
+		for _, in := range itb.Instrs {
 			if in == target {
 				reached = true
 				break
@@ -1154,16 +1221,17 @@ func (fi *FuncInfo) MustPassFeasible(target ssa.Instruction, instrPass func(ssa.
 		if passed {
 			continue
 		}
-		if reached && it.b == tb {
+		if reached && itb == tb {
 			return GateResult{OK: false, Witness: strings.Join(it.path, " ; ")}
 		}
-		for si, succ := range it.b.Succs {
-			if !FeasibleSucc(it.b, si) {
+		for si := range itb.Succs {
+			succ, feasible := fi.P.TStep(it.n, si)
+			if !feasible {
 				continue
 			}
 			np := pins
 			path := it.path
-			if a, ok := fi.EdgeAtom(Edge{it.b, si}); ok {
+			if a, ok := fi.EdgeAtomFrom(Edge{itb, si}, it.n.From); ok {
 				if contradicts(pins, a) {
 					continue
 				}
@@ -1259,7 +1327,7 @@ func (fi *FuncInfo) ValueFresh(v ssa.Value, at ssa.Instruction) (bool, string) {
 // function is fine.
 func (fi *FuncInfo) LoopBodyMustPass(header *ssa.BasicBlock, hit func(ssa.Instruction) bool) GateResult {
 	type st struct {
-		b    *ssa.BasicBlock
+		n    TNode
 		prev *st
 		via  string
 	}
@@ -1269,13 +1337,17 @@ func (fi *FuncInfo) LoopBodyMustPass(header *ssa.BasicBlock, hit func(ssa.Instru
 			return GateResult{OK: true}
 		}
 	}
-	body := header.Succs[0]
-	seen := map[*ssa.BasicBlock]bool{body: true}
-	q := []*st{{b: body}}
+	body, feasible := fi.P.TStep(TEntry(header), 0)
+	if !feasible {
+		return GateResult{OK: true}
+	}
+	seen := map[TNode]bool{body: true}
+	q := []*st{{n: body}}
 	for len(q) > 0 {
 		s := q[0]
 		q = q[1:]
-		if s.b == header {
+		sb := s.n.B
+		if sb == header {
 			var parts []string
 			for x := s; x != nil; x = x.prev {
 				if x.via != "" {
@@ -1285,7 +1357,7 @@ func (fi *FuncInfo) LoopBodyMustPass(header *ssa.BasicBlock, hit func(ssa.Instru
 			return GateResult{OK: false, Witness: strings.Join(parts, " ; ")}
 		}
 		blocked := false
-		for _, in := range s.b.Instrs {
+		for _, in := range sb.Instrs {
 			if hit(in) {
 				blocked = true
 				break
@@ -1294,19 +1366,20 @@ func (fi *FuncInfo) LoopBodyMustPass(header *ssa.BasicBlock, hit func(ssa.Instru
 		if blocked {
 			continue
 		}
-		for i, succ := range s.b.Succs {
-			if !FeasibleSucc(s.b, i) {
+		for i := range sb.Succs {
+			next, feasible := fi.P.TStep(s.n, i)
+			if !feasible {
 				continue
 			}
 			via := ""
-			if a, ok := fi.EdgeAtom(Edge{s.b, i}); ok {
+			if a, ok := fi.EdgeAtomFrom(Edge{sb, i}, s.n.From); ok {
 				via = "[" + a.String() + "]"
 			}
-			if seen[succ] && succ != header {
+			if seen[next] && next.B != header {
 				continue
 			}
-			seen[succ] = true
-			q = append(q, &st{b: succ, prev: s, via: via})
+			seen[next] = true
+			q = append(q, &st{n: next, prev: s, via: via})
 		}
 	}
 	return GateResult{OK: true}
@@ -1339,18 +1412,40 @@ func InLoop(header, b *ssa.BasicBlock) bool {
 // MustCrossInLoop: every path from the loop header to target (inside the loop)
 // crosses an edge satisfying pass — i.e. within the current iteration.
 func (fi *FuncInfo) MustCrossInLoop(header *ssa.BasicBlock, target ssa.Instruction, pass func(Atom) bool) GateResult {
+	return fi.MustCrossOrPassInLoop(header, target, pass, nil)
+}
+
+// MustCrossOrPassInLoop: as MustCrossInLoop; an instruction satisfying hit,
+// executed in the current iteration before target, also discharges the path.
+func (fi *FuncInfo) MustCrossOrPassInLoop(header *ssa.BasicBlock, target ssa.Instruction, pass func(Atom) bool, hit func(ssa.Instruction) bool) GateResult {
 	type st struct {
-		b    *ssa.BasicBlock
+		n    TNode
 		prev *st
 		via  string
 	}
-	seen := map[*ssa.BasicBlock]bool{header: true}
-	q := []*st{{b: header}}
+	seen := map[TNode]bool{TEntry(header): true}
+	q := []*st{{n: TEntry(header)}}
 	tb := target.Block()
 	for len(q) > 0 {
 		s := q[0]
 		q = q[1:]
-		if s.b == tb {
+		sb := s.n.B
+		blocked := false
+		reached := false
+		for _, in := range sb.Instrs {
+			if in == target {
+				reached = true
+				break
+			}
+			if hit != nil && hit(in) {
+				blocked = true
+				break
+			}
+		}
+		if blocked {
+			continue
+		}
+		if sb == tb && reached {
 			var parts []string
 			for x := s; x != nil; x = x.prev {
 				if x.via != "" {
@@ -1359,19 +1454,23 @@ func (fi *FuncInfo) MustCrossInLoop(header *ssa.BasicBlock, target ssa.Instructi
 			}
 			return GateResult{OK: false, Witness: strings.Join(parts, " ; ")}
 		}
-		for i, succ := range s.b.Succs {
-			if !FeasibleSucc(s.b, i) || seen[succ] {
+		for i := range sb.Succs {
+			next, feasible := fi.P.TStep(s.n, i)
+			if !feasible || seen[next] {
 				continue
 			}
+			if next.B == header {
+				continue // the next iteration
+			}
 			via := ""
-			if a, ok := fi.EdgeAtom(Edge{s.b, i}); ok {
+			if a, ok := fi.EdgeAtomFrom(Edge{sb, i}, s.n.From); ok {
 				via = "[" + a.String() + "]"
 				if pass(a) {
 					continue
 				}
 			}
-			seen[succ] = true
-			q = append(q, &st{b: succ, prev: s, via: via})
+			seen[next] = true
+			q = append(q, &st{n: next, prev: s, via: via})
 		}
 	}
 	return GateResult{OK: true}
@@ -1495,4 +1594,143 @@ func (fi *FuncInfo) LoopExits(header *ssa.BasicBlock) []LoopExit {
 		}
 	}
 	return out
+}
+
+// helperEdgePasses: the edge is the true edge of `if H(args)` where H is a
+// boolean helper no rule knows by name (IsNew) — a condition that a
+// refactoring moved into a predicate function. The edge then implies, for every
+// way H can return true, the conditions H tested on that way; it passes when on
+// each way one of them satisfies pass (after renaming H's parameters to the
+// call's arguments).
+func (fi *FuncInfo) helperEdgePasses(e Edge, pass func(Atom) bool) bool {
+	if len(e.From.Instrs) == 0 {
+		return false
+	}
+	iff, ok := e.From.Instrs[len(e.From.Instrs)-1].(*ssa.If)
+	if !ok {
+		return false
+	}
+	cond := iff.Cond
+	pol := e.Succ == 0
+	for {
+		u, isNot := cond.(*ssa.UnOp)
+		if !isNot || u.Op != token.NOT {
+			break
+		}
+		cond = u.X
+		pol = !pol
+	}
+	call, ok := cond.(*ssa.Call)
+	if !ok || !pol {
+		return false
+	}
+	h := call.Common().StaticCallee()
+	if h == nil || !fi.P.IsNew(h) || h.Blocks == nil || h.Signature.Results().Len() != 1 {
+		return false
+	}
+	ways := fi.P.trueWays(h)
+	if len(ways) == 0 {
+		return false
+	}
+	// rename parameters
+	hfi := fi.P.Info(h)
+	ren := map[string]string{}
+	for i, prm := range h.Params {
+		if i < len(call.Common().Args) {
+			ren[hfi.paramLeaf(prm)] = fi.Sym(call.Common().Args[i]).String()
+		}
+	}
+	rn := func(x string) string {
+		for from, to := range ren {
+			if from == to {
+				continue
+			}
+			x = replaceToken(x, from, to)
+		}
+		return x
+	}
+	for _, way := range ways {
+		found := false
+		for _, a := range way {
+			b := Atom{L: rn(a.L), Op: a.Op, R: rn(a.R)}
+			if pass(b.norm(false)) || pass(b) {
+				found = true
+				break
+			}
+		}
+		if !found {
+			return false
+		}
+	}
+	return true
+}
+
+// trueWays: for a boolean function, one set of atoms per way of returning
+// true: the branch atoms that every path to that return (or to the phi edge
+// supplying the value) crosses, plus the returned comparison itself.
+func (p *Program) trueWays(h *ssa.Function) [][]Atom {
+	fi := p.Info(h)
+	crossed := func(at ssa.Instruction) []Atom {
+		var out []Atom
+		for _, ea := range fi.AllEdgeAtoms() {
+			a := ea.A
+			r := fi.mustCrossOrPassLocal(at, func(x Atom) bool { return x.L == a.L && x.Op == a.Op && x.R == a.R }, nil, nil)
+			if r.OK {
+				out = append(out, a)
+			}
+		}
+		return out
+	}
+	var ways [][]Atom
+	var addVal func(v ssa.Value, at ssa.Instruction, depth int)
+	addVal = func(v ssa.Value, at ssa.Instruction, depth int) {
+		if c, ok := v.(*ssa.Const); ok {
+			if c.Value != nil && c.Value.Kind() == constant.Bool && constant.BoolVal(c.Value) {
+				ways = append(ways, crossed(at))
+			}
+			return
+		}
+		if phi, ok := v.(*ssa.Phi); ok && depth < 4 {
+			for i, ed := range phi.Edges {
+				pred := phi.Block().Preds[i]
+				addVal(ed, pred.Instrs[len(pred.Instrs)-1], depth+1)
+			}
+			return
+		}
+		w := crossed(at)
+		w = append(w, fi.AtomOf(v))
+		ways = append(ways, w)
+	}
+	for _, r := range Returns(h) {
+		if len(r.Results) == 1 {
+			addVal(r.Results[0], r, 0)
+		}
+	}
+	return ways
+}
+
+func replaceToken(s, from, to string) string {
+	if from == "" {
+		return s
+	}
+	var out strings.Builder
+	for i := 0; i < len(s); {
+		if strings.HasPrefix(s[i:], from) {
+			end := i + len(from)
+			beforeOK := i == 0 || !isIdentByte(s[i-1])
+			afterOK := end == len(s) || !isIdentByte(s[end])
+			if beforeOK && afterOK {
+				out.WriteString(to)
+				i = end
+				continue
+			}
+		}
+		out.WriteByte(s[i])
+		i++
+	}
+	return out.String()
+}
+
+func isIdentByte(c byte) bool {
+	return c == '_' || c == '$' || c >= '0' && c <= '9' || c >= 'a' && c <= 'z' || c >= 'A' && c <= 'Z'
 }
